@@ -233,12 +233,17 @@ def prepare(ck, use_cache=False):
     # 5. up to cap + 1 variable-length C strings in one statement
     r_w = tlc_codec(ck, "MC_wide", c, pool="cstr", maxstmts=2, maxargs=cap + 1, maxpending=1, export=True, workers=1)
     b_w = maximal(vlib.behaviours(r_w))
+    # 5b. scalar-only statements; composite-with-cache-users followed by another cache user, for every composite kind
+    r_sc = tlc_codec(ck, "MC_scalars", c, pool="scalars", maxstmts=1, maxargs=3, export=True, workers=1)
+    b_sc = maximal(vlib.behaviours(r_sc))
+    r_al = tlc_codec(ck, "MC_align", c, pool="align", maxstmts=1, maxargs=2, export=True, workers=1)
+    b_al = maximal(vlib.behaviours(r_al))
     b_d3 = []
     if not quick:
         r_d3 = tlc_codec(ck, "MC_depth3", c, pool="depth3", maxstmts=1, maxargs=1, export=True, timeout=1500)
         b_d3 = maximal(vlib.behaviours(r_d3))
     # 6. simulation: random statements (<= 3 arguments, all kinds, full shape sets), two per thread
-    nsim = 110 if quick else 1500
+    nsim = 80 if quick else 1500
     r_s = tlc_codec(ck, "Sim", c, sim=True, simdepth=2 if quick else 3, maxstmts=2, maxargs=3, maxpending=2,
                     dyn="{FALSE, TRUE}", export=True, simulate=nsim, seed=ck.seed, workers=1)
     b_s = maximal(vlib.behaviours(r_s))
@@ -251,14 +256,15 @@ def prepare(ck, use_cache=False):
     ck.extra["self_test"] = "3 seeded spec bugs (clear rule, strlen decode, StringRef mutation) reported by TLC"
     vlib.log(f"[codec] TLC done {time.time() - t0:.1f}s: depth2={len(b_d2)} pairs={len(b_p)} wide={len(b_w)} depth3={len(b_d3)} sim={len(b_s)}")
 
-    chosen = [("model-counterexample", h, 0, None) for h in CEX] + select(rng, quick, cap, b_d2, b_p, b_w, b_d3, b_s)
+    chosen = [("model-counterexample", h, 0, None, None) for h in CEX] + select(rng, quick, cap, b_d2, b_p, b_w, b_d3, b_s, b_sc, b_al)
     cases, dropped = [], 0
-    for origin, beh, fresh, big in chosen:
+    for origin, beh, fresh, big, opts in chosen:
         try:
-            cases.append(gen_codec.build_case(len(cases), beh, rng, c, fresh=fresh, big=big, origin=origin))
+            cases.append(gen_codec.build_case(len(cases), beh, rng, c, fresh=fresh, big=big, origin=origin, opts=opts))
         except gen_codec.Unrealisable:
             dropped += 1
-    ck.extra["behaviours_exported"] = {"depth2": len(b_d2), "pairs": len(b_p), "wide": len(b_w), "depth3": len(b_d3), "sim": len(b_s)}
+    ck.extra["behaviours_exported"] = {"depth2": len(b_d2), "pairs": len(b_p), "wide": len(b_w), "depth3": len(b_d3), "sim": len(b_s),
+                                       "scalars": len(b_sc), "align": len(b_al)}
     ck.extra["cases_unrealisable_in_cpp"] = dropped
     for old in GEN.glob(f"cases_{ck.tier}_*.json"):
         old.unlink()
@@ -266,7 +272,7 @@ def prepare(ck, use_cache=False):
     return dict(consts=c, rt=rt, cases=cases)
 
 
-def select(rng, quick, cap, b_d2, b_p, b_w, b_d3, b_s):
+def select(rng, quick, cap, b_d2, b_p, b_w, b_d3, b_s, b_sc=(), b_al=()):
     """stratified, seeded choice of the behaviours that are replayed on the real code"""
     out = []
     # depth2, leaves: EVERY shape of every leaf type (null pointer, unterminated / embedded-NUL arrays and strings, ...)
@@ -301,7 +307,7 @@ def select(rng, quick, cap, b_d2, b_p, b_w, b_d3, b_s):
         for b in (rng.sample(two, min(len(two), 1 if quick else 6))):
             out.append(("depth2", b, 0, None))
     rest = [t for t in types if t not in set(picked_types)]
-    n_d2 = 58 if quick else 1000
+    n_d2 = 40 if quick else 1000
     picked_types += rest[:max(0, n_d2 - len(picked_types))]
 
     def weight(b):      # prefer the shapes with more elements
@@ -320,11 +326,14 @@ def select(rng, quick, cap, b_d2, b_p, b_w, b_d3, b_s):
     p2 = [b for b in b_p if not stale(b)]
     rng.shuffle(p1)
     rng.shuffle(p2)
-    n_p = 40 if quick else 600
+    n_p = 30 if quick else 600
     for b in p1[:n_p * 2 // 3] + p2[:n_p // 3]:
         out.append(("pairs", b, 0, None))
     # wide: single statements with 1, cap-1, cap, cap+1 C strings; pairs spill -> small
-    singles = {len(calls(b)[0]["args"]): b for b in b_w if len(calls(b)) == 1 and not any(s["op"] == "mut" for s in b)}
+    singles = {}
+    for b in b_w:       # (single statements are prefixes of the exported pairs)
+        for cstep in calls(b):
+            singles.setdefault(len(cstep["args"]), [cstep, {"op": "poll"}])
     wanted = [1, 2, cap - 1, cap, cap + 1] if quick else list(range(1, cap + 2))
     for n in wanted:
         if n in singles:
@@ -337,22 +346,91 @@ def select(rng, quick, cap, b_d2, b_p, b_w, b_d3, b_s):
     for b in b_d3 if len(b_d3) <= 400 else rng.sample(b_d3, 400):
         out.append(("depth3", b, 0, None))
     # simulation
-    for b in b_s[: 85 if quick else 1100]:
+    for b in b_s[: 60 if quick else 1100]:
         out.append(("sim", b, 0, None))
+    out = [x + (None,) for x in out]
+    # --- systematic (criterion-based, not sampled) parts -------------------------------------------------------------
+    # (a) scalar-only statements that contain a plain char with a non-printable value
+    sc = [b for b in b_sc if any(a["ty"] == {"k": "arith", "n": 1, "p": []} for a in calls(b)[0]["args"]) and not any(s["op"] == "mut" for s in b)]
+    by_n = {}
+    for b in sc:
+        by_n.setdefault(len(calls(b)[0]["args"]), []).append(b)
+    for n in sorted(by_n):
+        for b in rng.sample(by_n[n], min(len(by_n[n]), (2 if quick else 8))):
+            out.append(("scalars", b, 0, None, {"force_char": True}))
+    # (b) for EVERY composite kind: the composite holds size-cache users (non-null), then another size-cache user follows
+    groups = {}
+    for b in b_al:
+        a0, a1 = calls(b)[0]["args"]
+        flat = json.dumps(a0["val"])
+        if '"null": true' in flat.lower() or a0["val"] in ([], ):
+            continue
+        if a0["ty"]["k"] in ("set", "mset") and len(a0["val"]) < 1:
+            continue
+        if not _has_nonempty(a0):
+            continue
+        groups.setdefault(gen_codec.tystr(a0["ty"]), {}).setdefault(gen_codec.tystr(a1["ty"]), []).append(b)
+    for ta in sorted(groups):
+        follow = sorted(groups[ta])
+        picks = ["cstr"] if quick else follow
+        if quick and rng.random() < 0.35:
+            picks = [rng.choice(follow)]
+        for tb in picks:
+            if tb in groups[ta]:
+                bs = sorted(groups[ta][tb], key=lambda b: -len(json.dumps(calls(b)[0]["args"][0]["val"])))
+                out.append(("align", bs[0] if quick else rng.choice(bs[: max(1, len(bs) // 2)]), 0, None, {"stretch": False}))
+    # (c) for EVERY composite kind over std::string: every string longer than the SSO buffer (copying an element allocates)
+    seen_kind = set()
+    cand = {}
+    for b in b_d2:
+        a0 = calls(b)[0]["args"][0]
+        t = a0["ty"]
+        if not t["p"] or not any(p == {"k": "str", "n": 0, "p": []} for p in t["p"]):
+            continue
+        if any(s["op"] == "mut" for s in b) or calls(b)[0]["dyn"]:
+            continue
+        others = [p["k"] for p in t["p"] if p["k"] != "str"]
+        if any(o not in ("arith", "str") for o in others):
+            continue
+        if '1' not in json.dumps(a0["val"]).replace(" ", ""):
+            continue
+        key = (t["k"], tuple(p["k"] for p in t["p"]))
+        cand.setdefault(key, []).append(b)
+    for key in sorted(cand):
+        bs = sorted(cand[key], key=lambda b: -len(json.dumps(calls(b)[0]["args"][0]["val"])))
+        out.append(("longstr", bs[0], 0, None, {"long_all": True}))
     rng.shuffle(out)
     # a few cases run on a fresh thread (first call / after preallocate()), one oversized statement in the middle
     res = []
-    for i, (o, b, fresh, big) in enumerate(out):
+    for i, (o, b, fresh, big, opts) in enumerate(out):
         if i % 23 == 5:
             fresh = 1
         elif i % 23 == 11:
             fresh = 2
-        res.append((o, b, fresh, big))
-    strs = [i for i, (o, b, f, g) in enumerate(res) if f == 0 and any(a["ty"]["k"] == "str" and 1 in a["val"] for a in calls(b)[-1]["args"])]
+        res.append((o, b, fresh, big, opts))
+    strs = [i for i, (o, b, f, g, op) in enumerate(res) if f == 0 and op is None and any(a["ty"]["k"] == "str" and 1 in a["val"] for a in calls(b)[-1]["args"])]
     for i in strs[:1 if quick else 4]:
-        o, b, f, g = res[i]
-        res[i] = (o, b, f, 200000)
+        o, b, f, g, op = res[i]
+        res[i] = (o, b, f, 200000, op)
     return res
+
+
+def _has_nonempty(a):
+    """the composite argument holds at least one non-null size-cache user"""
+    def walk(t, v):
+        k = t["k"]
+        if k == "cstr":
+            return not v["null"]
+        if k == "direct":
+            return True
+        if not t["p"]:
+            return False
+        if k in ("pair", "tup"):
+            return any(walk(p, x) for p, x in zip(t["p"], v))
+        if k in gen_codec.MAPS:
+            return any(walk(t["p"][0], x[0]) or walk(t["p"][1], x[1]) for x in v)
+        return any(walk(t["p"][0], x) for x in v)
+    return walk(a["ty"], a["val"])
 
 
 def build_and_run(ck, prep, per_tu=None):
